@@ -19,7 +19,10 @@ class MgrCase:
 
     @staticmethod
     def coq(c):
-        pool = "; ".join("mkRule %d %d %d %s %d" % (r[0], r[1], r[2], "true" if (r[2] % 5 != 0 and r[1] != 0) else "false", r[2] % 2)
+        # an invalid isolation rule has threshold 0, so all invalid isolation rules of a resource are equal rules: one class
+        def key_of(r):
+            return 0 if (c["family"] == 3 and r[2] % 5 == 0) else r[2]
+        pool = "; ".join("mkRule %d %d %d %s %d" % (r[0], r[1], key_of(r), "true" if (r[2] % 5 != 0 and r[1] != 0) else "false", r[2] % 2)
                          for r in c["pool"])
 
         def nl(l):
